@@ -37,6 +37,9 @@ mod simio;
 mod worker;
 mod world;
 
+#[global_allocator]
+static GLOBAL: simenv::CountingAlloc = simenv::CountingAlloc;
+
 fn usage() -> i32 {
     eprintln!(
         "usage:\n  simc check <C05|C16> <quick|thorough>\n  simc replay <file.json>\n  simc one <file.c> [args...]   (debug: run one program canonically and print the observation)\n  simc worker --dir <scratch>   (internal)"
@@ -53,6 +56,8 @@ fn main() {
         }
         Some("check") if args.len() >= 4 => parent::check(&args[2], &args[3]),
         Some("replay") if args.len() >= 3 => parent::replay(&args[2]),
+        Some("dbg") if args.len() >= 5 => parent::dbg(&args[2], args[3].parse().unwrap_or(0), args[4].parse().unwrap_or(1)),
+        Some("dump") if args.len() >= 4 => parent::dump(&args[2], &args[3]),
         Some("one") if args.len() >= 3 => parent::one(&args[2], &args[3..]),
         _ => usage(),
     };
